@@ -97,31 +97,32 @@ type violation struct {
 }
 
 type report struct {
-	Runs            int                      `json:"runs"`
-	Nodes           []int64                  `json:"nodes"`
-	Commands        map[string]int           `json:"commands"`
-	LargeMpubs      int                      `json:"large_mpubs"`
-	LargeSizes      map[string]int           `json:"large_sizes"`
-	Ids             int                      `json:"ids"`
-	ExhaustedTicks  int                      `json:"exhausted_ticks"`
-	MaxIdsPerTick   int                      `json:"max_ids_per_tick"`
-	Nudges          map[string]int           `json:"nudges"`
-	NudgedRuns      int                      `json:"nudged_runs"`
-	TaintedRuns     int                      `json:"tainted_runs"`
-	Unacked         int                      `json:"unacked"`
-	TwoTopicRuns    int                      `json:"two_topic_runs"`
-	CrossTopicEqual int                      `json:"cross_topic_equal_ids"`
-	ConsumerErrors  map[string]int           `json:"consumer_error_frames"`
-	Traces          int                      `json:"traces"`
-	TraceEvents     int                      `json:"trace_events"`
-	TraceIds        int                      `json:"trace_ids"`
-	TraceWindowed   int                      `json:"traces_windowed"`
-	DistinctShapes  int                      `json:"distinct_shapes"`
-	Violations      []violation              `json:"violations"`
-	ViolationCounts map[string]int           `json:"violation_counts"`
-	Samples         []map[string]interface{} `json:"samples"`
-	Inconclusive    string                   `json:"inconclusive,omitempty"`
-	WallMs          int64                    `json:"wall_ms"`
+	Runs               int                      `json:"runs"`
+	Nodes              []int64                  `json:"nodes"`
+	Commands           map[string]int           `json:"commands"`
+	LargeMpubs         int                      `json:"large_mpubs"`
+	LargeSizes         map[string]int           `json:"large_sizes"`
+	Ids                int                      `json:"ids"`
+	ExhaustedTicks     int                      `json:"exhausted_ticks"`
+	MaxIdsPerTick      int                      `json:"max_ids_per_tick"`
+	Nudges             map[string]int           `json:"nudges"`
+	NudgedRuns         int                      `json:"nudged_runs"`
+	TaintedRuns        int                      `json:"tainted_runs"`
+	Unacked            int                      `json:"unacked"`
+	TwoTopicRuns       int                      `json:"two_topic_runs"`
+	CrossTopicEqual    int                      `json:"cross_topic_equal_ids"`
+	ConsumerErrors     map[string]int           `json:"consumer_error_frames"`
+	Traces             int                      `json:"traces"`
+	TraceEvents        int                      `json:"trace_events"`
+	TraceIds           int                      `json:"trace_ids"`
+	TraceWindowed      int                      `json:"traces_windowed"`
+	DistinctShapes     int                      `json:"distinct_shapes"`
+	Violations         []violation              `json:"violations"`
+	ViolationCounts    map[string]int           `json:"violation_counts"`
+	Samples            []map[string]interface{} `json:"samples"`
+	Inconclusive       string                   `json:"inconclusive,omitempty"`
+	WallMs             int64                    `json:"wall_ms"`
+	FirstPublishTopics int                      `json:"first_publish_topics"`
 }
 
 func (r *report) violate(key string, run int, nodeID int64, what string) {
@@ -901,6 +902,130 @@ func (w *ndjson) put(m map[string]interface{}) {
 	w.n++
 }
 
+// firstPublishers: topics that exist (created over HTTP, with a channel) but have never been published to get their very
+// first messages from several connections at the same moment -- over and over, a fresh topic each time.  Whatever the topic
+// sets up on its first publish, no two of those messages may share an id.
+func firstPublishers(seed int64, rep *report, workdir string, ntopics, npub int) string {
+	dir := filepath.Join(workdir, "ids-first")
+	os.RemoveAll(dir)
+	if err := os.MkdirAll(dir, 0o755); err != nil {
+		return err.Error()
+	}
+	defer os.RemoveAll(dir)
+	nd, err := startNode(dir, 7)
+	if err != nil {
+		return "start nsqd: " + err.Error()
+	}
+	defer nd.stop(10 * time.Second)
+	hc := &http.Client{Timeout: 10 * time.Second}
+	post := func(path string) bool {
+		resp, err := hc.Post("http://"+nd.http+path, "application/octet-stream", nil)
+		if err != nil {
+			return false
+		}
+		io.Copy(io.Discard, resp.Body)
+		resp.Body.Close()
+		return resp.StatusCode == 200
+	}
+	conns := make([]*tcpConn, npub)
+	for i := range conns {
+		c, err := dialV2(nd.tcp, map[string]interface{}{"client_id": fmt.Sprintf("first-%d", i), "hostname": "verif",
+			"feature_negotiation": false, "heartbeat_interval": -1})
+		if err != nil {
+			return "publisher: " + err.Error()
+		}
+		c.c.SetDeadline(time.Time{})
+		conns[i] = c
+		defer c.c.Close()
+	}
+	for t := 0; t < ntopics; t++ {
+		topic := fmt.Sprintf("c12f_%d", t)
+		if !post("/topic/create?topic="+topic) || !post("/channel/create?topic="+topic+"&channel=ch") {
+			return "could not create " + topic
+		}
+	}
+	type sent struct {
+		body  string
+		acked bool
+	}
+	var mu sync.Mutex
+	published := map[string][]sent{}
+	for t := 0; t < ntopics; t++ {
+		topic := fmt.Sprintf("c12f_%d", t)
+		start := make(chan struct{})
+		var wg sync.WaitGroup
+		for i, c := range conns {
+			wg.Add(1)
+			go func(i int, c *tcpConn) {
+				defer wg.Done()
+				body := fmt.Sprintf("f.%d.%d", t, i)
+				kind := (t + i) % 3
+				<-start
+				var ok bool
+				switch kind {
+				case 0:
+					ft, data, err := c.roundTrip("PUB "+topic+"\n", lenPrefixed([]byte(body)))
+					ok = err == nil && ft == 0 && string(data) == "OK"
+				case 1:
+					ft, data, err := c.roundTrip("MPUB "+topic+"\n", lenPrefixed(mpubBinary([][]byte{[]byte(body), []byte(body + "b")})))
+					ok = err == nil && ft == 0 && string(data) == "OK"
+					mu.Lock()
+					published[topic] = append(published[topic], sent{body + "b", ok})
+					mu.Unlock()
+				default:
+					resp, err := hc.Post("http://"+nd.http+"/pub?topic="+topic, "application/octet-stream", strings.NewReader(body))
+					if err == nil {
+						io.Copy(io.Discard, resp.Body)
+						resp.Body.Close()
+						ok = resp.StatusCode == 200
+					}
+				}
+				mu.Lock()
+				published[topic] = append(published[topic], sent{body, ok})
+				mu.Unlock()
+			}(i, c)
+		}
+		time.Sleep(200 * time.Microsecond)
+		close(start)
+		wg.Wait()
+	}
+	// consume every topic and compare the ids
+	for t := 0; t < ntopics; t++ {
+		topic := fmt.Sprintf("c12f_%d", t)
+		want := 0
+		for _, s := range published[topic] {
+			if s.acked {
+				want++
+			}
+		}
+		c, err := startConsumer(nd.tcp, topic, "ch")
+		if err != nil {
+			return "consumer: " + err.Error()
+		}
+		deadline := time.Now().Add(10 * time.Second)
+		for c.count() < want && time.Now().Before(deadline) {
+			time.Sleep(2 * time.Millisecond)
+		}
+		c.mu.Lock()
+		seen := map[uint64]string{}
+		for _, d := range c.all {
+			rep.Ids++
+			if other, dup := seen[d.id]; dup {
+				rep.violate("dup-id", -1, 7, fmt.Sprintf("topic %s (created beforehand, these were its very first publishes, from %d connections at once): id %016x was given to message %s and to message %s", topic, npub, d.id, other, d.body))
+			}
+			seen[d.id] = d.body
+		}
+		got := len(c.all)
+		c.mu.Unlock()
+		c.close()
+		if got < want {
+			return fmt.Sprintf("first-publishers: %s delivered %d of %d acknowledged messages within 10 s", topic, got, want)
+		}
+	}
+	rep.FirstPublishTopics = ntopics
+	return ""
+}
+
 func main() {
 	seed := flag.Int64("seed", 1, "seed")
 	runs := flag.Int("runs", 6, "daemon lifetimes")
@@ -914,6 +1039,7 @@ func main() {
 	out := flag.String("out", "ids.ndjson", "trace for TopicIdsTrace.tla")
 	repPath := flag.String("report", "ids.json", "report")
 	workdir := flag.String("workdir", "", "scratch directory")
+	firstTopics := flag.Int("first-topics", 120, "pre-created topics whose first publishes come from several connections at once")
 	flag.Parse()
 	if *workdir == "" {
 		d, err := os.MkdirTemp("", "ids-")
@@ -935,6 +1061,9 @@ func main() {
 	rng := rand.New(rand.NewSource(*seed))
 	t0 := time.Now()
 	var inconclusive []string
+	if inc := firstPublishers(*seed, rep, *workdir, *firstTopics, 6); inc != "" {
+		inconclusive = append(inconclusive, inc)
+	}
 	for run := 0; run < *runs; run++ {
 		var nodeID int64
 		switch run % 5 {
